@@ -1327,7 +1327,30 @@ def ref_memo_key_rule(F, rep, rid):
                         regions.append((a["body"], [b_.get("lid") for b_ in walk(a["pat"]) if b_["k"] == "P.Binding"]))
             if x["k"] == "If" and x["cond"].get("k") == "Let" and any(p_.get("k") == "P.TupleStruct" and (p_.get("def") or "").endswith("RuntypeKind::Ref") for p_ in walk(x["cond"]["pat"])):
                 regions.append((x["then"], [b_.get("lid") for b_ in walk(x["cond"]["pat"]) if b_["k"] == "P.Binding"]))
-        for body, binds in regions:
+        # the arm may hand the matched reference to a helper (b51 / b59: `RuntypeKind::Ref(name) => self.convert_ref(name, ctx)`):
+        # the helper's body is the region then, with its parameter as the bound reference (two levels)
+        for _lvl in range(2):
+            more = []
+            for body, binds, *_o in regions:
+                for c in walk(body):
+                    if c["k"] not in ("Call", "MethodCall"):
+                        continue
+                    tg = F._callee_gid(f.crate, (c.get("callee") if c["k"] == "Call" else (c.get("resolved") or c.get("callee"))) or "")
+                    if tg not in F.hir or tg == g or any(tg is r_[2] for r_ in regions + more if len(r_) > 2):
+                        continue
+                    args_ = ([c["recv"]] if c["k"] == "MethodCall" else []) + list(c.get("args") or [])
+                    ps_ = F.hir[tg].get("params", [])
+                    got = []
+                    for ai, a in enumerate(args_):
+                        if ai < len(ps_) and any(y["k"] == "Path" and y.get("lid") in binds for y in walk(a)):
+                            got += [b_.get("lid") for b_ in walk(ps_[ai]) if b_["k"] == "P.Binding"]
+                    if got:
+                        more.append((F.hir[tg]["body"], got, tg))
+            new_ = [m_ for m_ in more if not any(len(r_) > 2 and r_[2] == m_[2] for r_ in regions)]
+            if not new_:
+                break
+            regions += new_
+        for body, binds, *_owner in regions:
             for c in walk(body):
                 if c["k"] != "MethodCall" or c.get("method") not in ("get", "insert", "contains_key", "entry", "get_mut") or c["recv"]["k"] != "Field":
                     continue
